@@ -21,18 +21,23 @@ THEOREM_FILES = ["Props/C10.v"]
 COQ_IMPORTS = ("From Coq Require Import List ZArith Bool QArith Qcanon.\n"
                "From PV Require Import Base.Index Np.Array Model.Sparse Model.Repr Model.Harness Model.C10Tucker Model.C10Check.\n")
 RULE = ("integer tensors <= 4x3x3 (1- to 4-way, singleton modes, low-rank + noise and full random), tolerances {0.05..0.9}, "
-        "rank vectors within the mode sizes, sequential True/False, all/random mode orders, tucker_als with list/nvecs/random "
-        "init and maxiters 1..3; non-trivial = more than one cell per two modes and a truncation is possible; distinct = distinct (op,args)")
-CORRESPONDENCE_ONLY = ["eigen-decomposition (LAPACK eigh / ARPACK eigsh): certificate-checked oracle",
+        "rank vectors within the mode sizes (all given, all automatic, mixed given/automatic), sequential True/False, all/random mode "
+        "orders, the caller's ranks array observed after the call, tucker_als with list/nvecs/random init and maxiters 1..3; "
+        "non-trivial = more than one cell per two modes and a truncation is possible; distinct = distinct (op,args)")
+CORRESPONDENCE_ONLY = ["eigen-decomposition (LAPACK eigh / ARPACK eigsh): certificate-checked oracle; the Ky-Fan optimality of the leading "
+                       "eigenvectors enters C10_hooi_monotone as the stated eigen-oracle contract",
                        "ttensor.full reconstruction (core x_n U_n) against the exact ttm chain",
-                       "tucker_als HOOI sweep: fit monotonicity sampled (maxiters 1..3), not proved"]
+                       "instantiation of the abstract inner-product space / projector hypotheses by concrete dense tensors and ttm with "
+                       "U U^T (commutation of mode products is proved on denotations: C10_core_relation_order)"]
 ASSUMPTIONS = ["floats are converted to rationals after rounding to the 2^-40 grid (abs. error <= 5e-13, inside the 1e-9 tolerance)",
-               "spectral step (leading eigenvectors of the Gram matrix capture all but the discarded eigenvalue energy) is the "
-               "eigen-oracle contract; it is certificate-checked on the samples, not proved",
-               "theorems are over exact real arithmetic (stdlib Reals axioms); IEEE rounding is not modelled"]
-EXPLANATION = ("C10_rank_choice/C10_given_ranks are theorems about the transliterated rank rule; C10_projector_bound/C10_error_bound/"
-               "C10_tucker_als_fit are theorems over an abstract real inner-product space; the correspondence recomputes every "
-               "claimed relation exactly in Qc on pyttb's returned factors and core.")
+               "theorems are over exact real arithmetic (stdlib Reals axioms); IEEE rounding is not modelled",
+               "C10_spectral_step / C10_hosvd_error_bound take the orthonormal eigenbasis as hypothesis (projectors Q_j resolving the "
+               "identity, lambda_j = ||Q_j y||^2); on the samples the LAPACK output is certificate-checked in Qc"]
+EXPLANATION = ("C10_rank_choice / C10_given_ranks / C10_ncols: theorems about the transliterated rank rule and slice of the repaired hosvd; "
+               "C10_spectral_step: discarded eigenvalues = discarded projector energy; C10_hosvd_error_bound: rank rule per mode ==> relative "
+               "error <= tol for both strategies and every mode order; C10_hooi_monotone / C10_hooi_fit_monotone: ||core|| and the fit never "
+               "decrease under the eigen-oracle contract; C10_tucker_als_fit: fit identity; the correspondence recomputes every claimed "
+               "relation exactly in Qc on pyttb's returned factors and core.")
 
 GRID = 2 ** 40
 
